@@ -43,7 +43,7 @@ def explain(path):
         for i, op in enumerate(plan["ops"]):
             k = op[0]
             if k == "new" and len(op) > 1:
-                out.append("%2d: pool.append(LinearScale(%s, %s, None, %s))" % (i, op[2], op[3], op[4]))
+                out.append("%2d: pool.append(LinearScale(%s, %s, None, %s))   # arguments given: %s" % (i, op[2], op[3], op[4], op[6] if len(op) > 6 else "all"))
             elif k == "new":
                 out.append("%2d: pool.append(LinearScale())" % i)
             elif k in ("domain_from", "range_from"):
